@@ -7,8 +7,11 @@ Induction over the time loop (summarised as a recurrence, C04) with the contract
   *.inv.preserve.upper/lower   arg-max / arg-min of the new row: min(L_i, m_f[i]) <= x_j <= m_i
   *.mono_x.preserve         constant schedule: the new row is non-decreasing away from the fracture if the old one is
   *.steady                  a row that reproduces itself under a positive step is the constant m_f (ideal: 0)
-Non-increasing in time beyond node 0 and convergence to the steady state: BOUNDED run-time contracts (no inductive
-invariant: the boundary row's right-hand side is indefinite); known finding F3 lives there.
+  ideal.concave.init/.preserve, ideal.mono_t.step   IdealReservoir: every level is discretely concave ((L u)_j >= 0 for the
+                            stencil L of the step matrix I + k L), hence x_j <= u_i[j] at every node, every non-decreasing time grid
+SinglePhaseReservoir: non-increasing in time beyond node 0 and (both classes) convergence to the steady state: BOUNDED
+run-time contracts (no inductive invariant: the boundary row's right-hand side is indefinite and the diffusivity differs
+from row to row, so the matrix does not commute with the stencil); known finding F3 lives there.
 """
 from __future__ import annotations
 
@@ -19,7 +22,7 @@ from .common import *  # noqa: F403
 
 LEVEL = "proof"
 EXPLANATION = ("the discrete maximum principle, the frac-face consistency of the boundary row, spatial monotonicity and the uniqueness of the steady state are proved by induction over the exact recurrence of the time loop; "
-               "each induction step is a quantifier-free SMT obligation after explicit instantiation at a Skolem arg-max / arg-min index. Monotonicity in time and convergence to the steady state are bounded run-time clauses")
+               "each induction step is a quantifier-free SMT obligation after explicit instantiation at a Skolem arg-max / arg-min index. For the ideal reservoir monotonicity in time is proved too (invariant: discrete concavity of every level). Monotonicity in time of the single-phase class and convergence to the steady state are bounded run-time clauses")
 TRUSTED = ["a finite non-empty index range has an arg-max / arg-min (used as a Skolem constant J with forall j: x_j <= x_J)", "induction on the step index (base + step => forall i)",
            "contracts of _build_matrix and _solve (C04), FlowProperties.valid() (C09): 0 < min alpha <= alpha(q); m_scaled_func non-decreasing"]
 ASSUMPTIONS = ["exact linear solve (C04 carries the solver); time grid non-decreasing; p_f[i] <= p_i inside the table"]
@@ -42,6 +45,30 @@ def bounded_check(clauses):
                 return {"reproduced": True, "input": v.get("input"), "observed": v.get("observed"), "required": v.get("required"), "clause": v.get("clause")}
         return {"reproduced": False}
     return rp_
+
+
+def ideal_time_replay(w):
+    """real IdealReservoir on time grids whose step size jumps (alternating tiny / large steps, log-normal random steps, a
+    geometric grid): beyond the frac-face node no value may rise from one level to the next (the property's clause; the
+    obligation also covers node 0).  Falls back on the bounded family's mono.time clause."""
+    import warnings
+    import numpy as np
+    warnings.simplefilter("ignore")
+    flow = __import__("bluebonnet.flow", fromlist=["x"])
+    grids = {"alternating 1e-6 / 5e-2": np.concatenate([[0.0], np.cumsum(np.tile([1e-6, 5e-2], 30))]), "geometric": np.concatenate([[0.0], np.geomspace(1e-7, 5.0, 60)])}
+    for sd in range(4):
+        grids[f"lognormal(sigma=3) steps, seed {sd}"] = np.concatenate([[0.0], np.cumsum(np.random.default_rng(sd).lognormal(-6.0, 3.0, 60))])
+    for nx_ in (3, 5, 12, 40):
+        for name, t in grids.items():
+            r = flow.IdealReservoir(nx_, 1000.0, 8000.0)
+            r.simulate(t)
+            pp = np.asarray(r.pseudopressure, dtype=float)
+            d = pp[1:, 1:] - pp[:-1, 1:]
+            if not np.isfinite(pp).all() or d.max() > 1e-12:
+                a, b_ = np.unravel_index(int(np.nanargmax(d)), d.shape)
+                return {"reproduced": True, "input": {"reservoir": "IdealReservoir", "nx": nx_, "time grid": name, "time": [float(x) for x in t]}, "observed": {"pp[i+1, j] - pp[i, j]": float(d[a, b_]), "i": int(a), "j": int(b_) + 1},
+                        "required": "pp[i+1, j] <= pp[i, j] + 1e-12 for j >= 1", "clause": "mono.time"}
+    return bounded_check(("mono.time",))(w)
 
 
 def step_facts(S, idxs):
@@ -185,6 +212,55 @@ def build(ctx):
             return with_models(v, S.o)
 
         obs.append(Obligation(f"{tag}.mono_x.preserve", f"{cls}, constant drawdown: if row i is non-decreasing away from the fracture (and within bounds), so is row i+1 (arg-min of the differences; cases first pair / interior / last pair)", mono_x, fq, "SMT", bounded_check(("mono.space",))))
+
+        if ideal:
+            # ---- non-increasing in time, all nodes, every non-decreasing time grid (ideal reservoir: constant diffusivity, so the
+            # matrix is I + k L with one k for all rows and commutes with the stencil L).  Invariant: every level is discretely
+            # concave, (L u)_j >= 0 with L the rows (2,-1) / (-1,2,-1) / (-1,1).  v = L x satisfies (I + k L) v = L prev >= 0, so
+            # its arg-min is non-negative (same arg-min argument as the lower bound); then prev_j - x_j = k v_j >= 0.
+            def lap(f, q, n_):
+                last = tm.sub(n_, one)
+                two = tm.rconst(2)
+                return tm.ite(tm.eq(q, tm.const(0)), tm.sub(tm.mul(two, f(q)), f(tm.add(q, one))),
+                              tm.ite(tm.eq(q, last), tm.sub(f(q), f(tm.sub(q, one))),
+                                     tm.sub(tm.sub(tm.mul(two, f(q)), f(tm.sub(q, one))), f(tm.add(q, one)))))
+
+            def concave_init(mk=mk):
+                S = mk()
+                row0 = lambda q: S.pre((tm.const(0), q))
+                goal = tm.implies(resv.inr(j, S.n), tm.ge(lap(row0, j, S.n), ZERO))
+                return with_models(be.prove_smt(goal, pre(S), want={"j": j}), S.o)
+
+            obs.append(Obligation("ideal.concave.init", "IdealReservoir: time level 0 is discretely concave: (L u)_j >= 0 at every node for the stencil rows (2,-1) / (-1,2,-1) / (-1,1) of the step matrix I + k L", concave_init, fq, "SMT", ideal_time_replay))
+
+            def concave_preserve(mk=mk, canary=False):
+                S = mk()
+                idx = [J, tm.sub(J, one), tm.add(J, one), tm.sub(J, tm.const(2)), tm.add(J, tm.const(2))]
+                facts, K, X, B = step_facts(S, idx)
+                n_ = S.n
+                prev = lambda c: S.PP(S.i, c)
+                V = lambda q: lap(lambda c: X((c,)), q, n_)
+                hyp = pre(S) + facts + [resv.inr(J, n_)]
+                hyp += [tm.implies(resv.inr(q, n_), tm.ge(K(q), ZERO)) for q in idx]          # lemma k_nonneg
+                if not canary:
+                    hyp += [tm.ge(lap(prev, J, n_), ZERO)]                                       # induction hypothesis, needed at row J only
+                hyp += [tm.implies(resv.inr(q, n_), tm.ge(V(q), V(J))) for q in (tm.sub(J, one), tm.add(J, one))]  # J is an arg-min of v = L x
+                v = be.prove_smt(tm.ge(V(J), ZERO), hyp, timeout_ms=60000, want={"J": J, "n": n_})
+                return with_models(v, S.o)
+
+            obs.append(Obligation("ideal.concave.preserve", "IdealReservoir: if level i is discretely concave, so is level i+1 (v = L x solves (I + k L) v = L u_i >= 0 because one mesh number serves all rows; the smallest v_J is >= 0), for every step size", concave_preserve, fq, "SMT", ideal_time_replay))
+            obs.append(Obligation("canary.concave", "CANARY (must be refuted): concavity of level i+1 without the induction hypothesis", lambda: concave_preserve(canary=True), fq, "SMT", expect=be.REFUTED))
+
+            def mono_t(mk=mk):
+                S = mk()
+                facts, K, X, B = step_facts(S, [j])
+                n_ = S.n
+                V = lambda q: lap(lambda c: X((c,)), q, n_)
+                hyp = pre(S) + facts + [resv.inr(j, n_), tm.ge(K(j), ZERO), tm.ge(V(j), ZERO)]  # lemmas k_nonneg, concave.preserve
+                v = be.prove_smt(tm.le(X((j,)), S.PP(S.i, j)), hyp, timeout_ms=30000, want={"j": j, "n": n_})
+                return with_models(v, S.o)
+
+            obs.append(Obligation("ideal.mono_t.step", "IdealReservoir: x_j <= u_i[j] at EVERY node (row equation: u_i[j] - x_j = k (L x)_j with k >= 0 and level i+1 concave): the field is non-increasing in time on every non-decreasing time grid", mono_t, fq, "SMT", ideal_time_replay))
 
         def steady(mk=mk, ideal=ideal):
             S = mk("none") if not ideal else mk()
